@@ -214,6 +214,10 @@ def run(ctx):
     # ---- R9 the JSON text is what serde_json wrote / what the user supplied
     json_text_rule(ctx, "C06.R9", [ctx.cli, ctx.wasm, core])
     whole_stdin_rule(ctx, "C06.R11", ctx.cli)
+    text_in_rule(ctx, "C06.R13", ctx.cli)
+    from rules import c11 as c11_
+    ctx.rule("C06.R14", "a number written in a program is the number that is output: prefix minus is the IEEE negation of its operand (so `-0` stays -0 through output and input), never `0 - x`", floor=1)
+    c11_.unary_rule(ctx, "C06.R14", core)
     from_json_number_rule(ctx, "C06.R7", core)
     heap_allocation_rule(ctx, "C06.R12", core)
 
@@ -403,6 +407,57 @@ def to_json_number_rule(ctx, rid, core):
                     conds += [y["name"] for y in H.walk(x["cond"]) if H.kind(y) == "MethodCall"] + [y["op"] for y in H.walk(x["cond"]) if H.kind(y) == "Binary" and y["op"] in ("Eq", "Ne", "Lt", "Le", "Gt", "Ge")]
         other = sorted(set(c for c in conds if c not in FIN))
         ctx.inst(rid, "to_json#Number", not other, "conditions that select how a number is written: %s (anything but a finiteness test sends some finite numbers - subnormals, large magnitudes - down a different path)" % (sorted(set(conds)) or "none"), H.loc(num_arms[0]["body"]))
+
+
+def text_in_rule(ctx, rid, cli):
+    """what is read from outside reaches its parser as it was read: the program file's text, and the JSON text of inputs"""
+    ctx.rule(rid, "text read from outside reaches its parser unmodified: the program file's content is not rewritten between fs::read_to_string and the evaluation (string literals have no escapes: a normalised line ending inside one is a different string), and the JSON inputs text is handed to serde_json as it arrived, not through a pre-processing helper", floor=2)
+    TRIMS = {"trim", "trim_start", "trim_end"}
+    n_read = 0
+    for fname, f in sorted(cli.hir.items()):
+        if f.get("body") is None or "::tests::" in fname:
+            continue
+        reads = [x for x in H.walk(f["body"]) if H.kind(x) == "Call" and (x.get("def") or "") in ("std::fs::read_to_string",)]
+        if reads:
+            derived = set()
+            bad = []
+            for x in H.walk(f["body"]):
+                if isinstance(x, dict) and x.get("k") == "Let" and x.get("init") is not None and any(any(y is r_ for y in H.walk(x["init"])) for r_ in reads):
+                    derived |= set(H.pat_binds(x["pat"]))
+                if H.kind(x) == "MethodCall" and x["name"] in ("map", "and_then", "map_or", "map_or_else") and any(any(y is r_ for y in H.walk(x["recv"])) for r_ in reads):
+                    for a_ in x["args"]:
+                        if H.kind(H.strip(a_)) == "Closure":
+                            for p_ in H.strip(a_)["params"]:
+                                derived |= set(H.pat_binds(p_))
+                if H.kind(x) == "Match" and any(any(y is r_ for y in H.walk(x["scrut"])) for r_ in reads):
+                    for a_ in x["arms"]:
+                        derived |= set(H.pat_binds(a_["pat"]))
+            for x in H.walk(f["body"]):
+                if H.kind(x) == "MethodCall" and x["name"] in REWRITE and x["name"] not in ("chars", "bytes", "lines", "split") and (
+                        any(H.path_local(y) in derived for y in H.walk(x["recv"]) if H.kind(y) == "Path") or any(any(y is r_ for y in H.walk(x["recv"])) for r_ in reads)):
+                    rt = (x.get("recv_ty") or H.strip(x["recv"]).get("ty") or "")
+                    if "String" in rt or "str" in rt:
+                        bad.append("%s() at %s" % (x["name"], H.loc(x)))
+            n_read += 1
+            ctx.inst(rid, "%s#file-text-untouched" % fname, not bad, "text read from a file is held in %s; rewritten by: %s" % (sorted(derived) or "no local", bad or "nothing"), H.loc(reads[0]))
+        for x in H.walk(f["body"]):
+            if H.kind(x) == "Call" and (x.get("def") or "").startswith("serde_json::") and H.last(x.get("def") or "") in ("from_str", "from_slice", "from_reader") and x.get("args"):
+                a_ = H.strip(x["args"][0])
+                while H.kind(a_) in ("AddrOf",) or (H.kind(a_) == "Unary" and a_.get("op") == "Deref") or (H.kind(a_) == "MethodCall" and a_["name"] in (TRIMS | {"as_str", "as_ref", "as_bytes", "borrow", "deref"})):
+                    a_ = H.strip(a_.get("e") or a_.get("recv"))
+                params = {bn for p_ in f.get("params", []) for bn in H.pat_binds(p_)}
+                l_ = H.path_local(a_)
+                if l_ is not None:
+                    v_ = True if l_ in params else None
+                    d_ = "serde_json::%s reads %s%s" % (H.last(x["def"]), l_, " (the text the function was given)" if v_ else " (a local: not followed)")
+                elif H.kind(a_) == "Call" and (a_.get("def") or "").split("::")[0] in ("blots", "blots_core", "blots_wasm"):
+                    v_, d_ = False, "the JSON text goes through %s() before serde_json reads it: a pre-processing pass over JSON text has to know JSON's string and escape rules exactly, or it rewrites the inside of strings" % H.last(a_["def"])
+                elif H.kind(a_) == "MethodCall" and a_["name"] in REWRITE:
+                    v_, d_ = False, "the JSON text is rewritten with %s() before serde_json reads it" % a_["name"]
+                else:
+                    v_, d_ = None, "the argument of serde_json::%s is not a plain local" % H.last(x["def"])
+                ctx.inst(rid, "%s#json-text-as-given" % fname, v_, d_, H.loc(x))
+    ctx.inst(rid, "file-reads#found", n_read >= 1, "%d function(s) of the CLI read a program file with fs::read_to_string" % n_read, None)
 
 
 def from_json_number_rule(ctx, rid, core):
